@@ -17,6 +17,7 @@ ONE = [("Rgate", "passive", lambda r: (r.uniform(-7, 7),)), ("Sgate", "active", 
        ("Vacuum", "prep", lambda r: ()), ("Coherent", "prep", lambda r: (r.uniform(0, 0.6), r.uniform(-4, 4))),
        ("Squeezed", "prep", lambda r: (r.uniform(0, 0.4), r.uniform(-4, 4))), ("Thermal", "prep", lambda r: (r.uniform(0, 0.4),)),
        ("DisplacedSqueezed", "prep", lambda r: (r.uniform(0, 0.4), r.uniform(-4, 4), r.uniform(0, 0.3), r.uniform(-4, 4)))]
+MEAS = [("MeasureFock", "meas", lambda r: ()), ("MeasureHomodyne", "meas", lambda r: (r.uniform(-4, 4),)), ("MeasureHeterodyne", "meas", lambda r: ())]
 TWO = [("BSgate", "passive", lambda r: (r.choice([r.uniform(-4, 4), 0.0, math.pi / 2]), r.uniform(-4, 4))), ("MZgate", "passive", lambda r: (r.choice([r.uniform(-4, 4), 0.0]), r.uniform(-4, 4))),
        ("S2gate", "active", lambda r: (r.uniform(-0.4, 0.4), r.uniform(-4, 4))), ("CXgate", "active", lambda r: (r.uniform(-0.5, 0.5),)),
        ("CZgate", "active", lambda r: (r.uniform(-0.5, 0.5),))]
@@ -33,7 +34,11 @@ def gen_case(rnd):
         else:
             name, _, par = rnd.choice(ONE[:9])
             prefix.append((name, par(rnd), (rnd.randrange(n),), False))
-    if rnd.random() < 0.5:
+    u = rnd.random()
+    if u < 0.12:
+        name, cls, par = rnd.choice(MEAS)           # a sampled measurement (the generator is seeded per case)
+        modes = (rnd.randrange(n),)
+    elif u < 0.56:
         name, cls, par = rnd.choice(TWO)
         modes = tuple(rnd.sample(range(n), 2))
     else:
@@ -85,6 +90,7 @@ def _run_one(case):
                     op | tuple(q[m] for m in modes)
             return p
         targets = case["last"][2]
+        np.random.seed(abs(hash(describe(case))) % (2 ** 31))
         b = _observe(sfx.engine(cfg, cutoff).run(prog(False)).state, cfg, cutoff, targets, sfx)
         a = _observe(sfx.engine(cfg, cutoff).run(prog(True)).state, cfg, cutoff, targets, sfx)
         return {"ok": True, "before": b, "after": a}
@@ -105,6 +111,8 @@ def float_programs(chk, clauses):
     Q = lambda x: int(round(x * 1e6))
     for cfg, cutoff, frac in (("gaussian", None, 1.0), ("bosonic", None, 1.0), ("fock", 9, 0.12), ("fockmixed", 7, 0.06)):
         sel = [c for c in cases if (cfg != "bosonic" or True)]
+        sel = [c for c in sel if c["cls"] != "meas" or (c["last"][0] == "MeasureFock") == cfg.startswith("fock") or
+               (c["last"][0] == "MeasureHomodyne")]      # photon counting updates the state on Fock only; heterodyne: phase space only
         if cfg.startswith("fock"):
             sel = [c for c in sel if c["n"] <= (3 if cfg == "fock" else 2) and c["last"][0] != "ThermalLossChannel" and
                    not any(t[0] == "ThermalLossChannel" for t in c["prefix"])][: int(count * frac)]
